@@ -517,7 +517,8 @@ def glob_scenarios(tier, first_sid, rnd):
              "(?i)A/**", "", "nonexistent/**", "a/x.txt", "a", "**/a/**", "<*/>*.txt", "a/b/c.txt", "**/b/*", "*/*", "b/a/z.txt",
              "[ab]/*.txt", ".h/*", "**/d", "a/b/d/**", "*.txt", "a/<b/:0,1>*"]
     deep_globs = ["a/**/{f,g,h}", "**/c/*", "a/b/**", "**/g", "{a,b}/c/*", "a/b/c/f", "**/b/**", "a/*/g", "*/c/**", "b/**/h"]
-    for tname, gl in (("plain", globs), ("deep", deep_globs)):
+    link_globs = ["a/f*", "*/g", "b/*", "**/g", "a/*", "?/t*"]     # links to directories whose names a component rejects
+    for tname, gl in (("plain", globs), ("deep", deep_globs), ("links", link_globs)):
         nodes, index = tree(TREES[tname])
         for g in gl:
             for base, spelling in (("root", "abs"), ("root", "trailing"), ("root", "dot")) if tier == "thorough" or g in ("**/*.txt", "a/**", "*") else (("root", "abs"),):
